@@ -8,7 +8,7 @@ import StepModel.ExpSchemaSyn
 /-! Line-protocol driver for the exppp model (property C07).
 
   pp <linelen> <t:0|1> <c:0|1> SCHEMA…      -> `P <escaped text>` | `parse-error`
-  ast <tok>*                                 -> `A <prefix form of normSpec (parse toks)>` | `parse-error`
+  ast <tok>*                                 -> `A <prefix form of joinStr (parse toks)>` | `parse-error`
   toks <tok>*                                -> `T <tokens of the printed parse>`       | `parse-error`
 Expressions are given as *source token lists* (`X <n> tok…`); the model parses them with `Express.parse`.
 -/
@@ -370,7 +370,7 @@ def handle (line : String) : String :=
   | "ast" :: rest =>
     match toksOfWords rest with
     | some ts => match parse ts with
-      | some e => "A " ++ astStr (joinStr (normSpec e))
+      | some e => "A " ++ astStr (joinStr e)
       | none => "parse-error"
     | none => "bad-op"
   | "toks" :: rest =>
